@@ -58,7 +58,7 @@ def r03_3(facts, res, rule, reach, scc_reasons=None):
             continue
         st["instances"] += 1
         members = sorted(f["path"] for f in fns)
-        key = "+".join(members)
+        key = "cycle-of:" + members[0]   # named by its alphabetically first member (stable when members are added)
         guarded = any(_guarded(facts, f) for f in fns)
         if guarded:
             st["guarded"] += 1
